@@ -1291,10 +1291,26 @@ def _run_sqlite_big(case):
       calls.append(rows)
       want += [(cid, len(ex['x']), ex['x'].tolist()) for cid, ex in rows]
     forms = [lambda l: l, iter, lambda l: (r for r in l), tuple]
+    early = None
     try:
-      with sfd.SQLiteFederatedDataBuilder(path) as b:
-        for ci, rows in enumerate(calls):
-          b.add_many(forms[(ci + case.get('form', 0)) % len(forms)](rows))
+      if case.get('form', 0) % 2 == 1:
+        # the builder is a plain object (its constructor opens the connection): used WITHOUT a `with` block, what
+        # add_many has returned for must be readable while the builder is still alive (round-8 seed C16-z1)
+        b = sfd.SQLiteFederatedDataBuilder(path)
+        try:
+          done = 0
+          for ci, rows in enumerate(calls):
+            b.add_many(forms[(ci + case.get('form', 0)) % len(forms)](rows))
+            done += len(rows)
+            seen = int(sfd.SQLiteFederatedData.new(path).num_clients())
+            if seen != done and early is None:
+              early = f'{seen} clients readable after add_many call {ci} returned, {done} written so far (builder still open)'
+        finally:
+          b.__exit__(None, None, None)
+      else:
+        with sfd.SQLiteFederatedDataBuilder(path) as b:
+          for ci, rows in enumerate(calls):
+            b.add_many(forms[(ci + case.get('form', 0)) % len(forms)](rows))
     except Exception as ex:  # pylint: disable=broad-except
       return {'status': 'ser-error', 'err': _err(ex)}
     try:
@@ -1305,8 +1321,10 @@ def _run_sqlite_big(case):
       exs = [(c, ds.all_examples()['x']) for c, ds in fd.clients()]
     except Exception as ex:  # pylint: disable=broad-except
       return {'status': 'des-error', 'err': _err(ex)}
-    bad = None
-    if num != len(want) or len(ids) != len(want):
+    bad = early
+    if bad is not None:
+      pass
+    elif num != len(want) or len(ids) != len(want):
       bad = f'{num} clients / {len(ids)} ids read back, {len(want)} written'
     elif ids != [w[0] for w in want]:
       bad = 'client ids / their order differ'
